@@ -58,10 +58,13 @@ Init == /\ cfg \in Configs
 
 RejectConfig == /\ out = "reject" /\ UNCHANGED vars            \* nothing is written, ever
 
+\* the images Q admits for t are among the two neighbouring unit multiples (CandsComplete checks this by brute force)
+Cands(u, tt) == {x \in {(tt \div u) * u, (tt \div u) * u + u} : Q(u, tt, x)}
+
 WriteRead == /\ out = "written"
              /\ t < NUnits * U
              /\ t' = t + 1
-             /\ q' \in {x \in (t + 1 - U)..(t + 1 + U) : Q(U, t + 1, x) /\ x >= q}
+             /\ q' \in {x \in Cands(U, t + 1) : x >= q}
              /\ UNCHANGED <<cfg, out>>
 
 Next == WriteRead \/ RejectConfig
@@ -71,8 +74,9 @@ ConfigWellFormed == out = "written" => UnitExact(cfg, cfg.D) /\ U > 0
 ImageAdmitted    == out = "written" => Q(U, t, q)
 IdentityOnRepresentable == (out = "written" /\ Representable(U, t)) => q = t
 \* whatever monotone choices were made so far, a monotone continuation exists (floor, ceiling and nearest all qualify)
-CanContinue      == (out = "written" /\ t < NUnits * U) => \E x \in (t + 1 - U)..(t + 1 + U) : Q(U, t + 1, x) /\ x >= q
-AtMostTwoImages  == out = "written" => Cardinality({x \in (t - U)..(t + U) : Q(U, t, x)}) \in {1, 2}
+CanContinue      == (out = "written" /\ t < NUnits * U) => \E x \in Cands(U, t + 1) : x >= q
+AtMostTwoImages  == out = "written" => Cardinality(Cands(U, t)) \in {1, 2}
+CandsComplete    == (out = "written" /\ U <= 125) => Cands(U, t) = {x \in (t - U)..(t + U) : Q(U, t, x)}
 RejectedStaysEmpty == out = "reject" => (t = 0 /\ q = 0)
 Monotone == [][q' >= q]_vars
 =============================================================================
